@@ -315,7 +315,7 @@ def step (s : St) (op : List String) (impl : Option (List String)) : St × Strin
           | _, _ => v
         (s', out, v)
     | _ => (s, "bad-op", "-")
-  | ["ocopy", k, j] =>
+  | ["ocopy", k, j] | ["oclone", k, j] =>
     match nat? k, nat? j with
     | some k, some j =>
       match s.oreg[k]! with
